@@ -561,6 +561,14 @@ impl<'scope, 'data: 'scope, 'offsets> SplitResources<'data, 'offsets, 'scope> {
         let mut lock = self.strings_by_bucket_and_group[string_bucket_offset(input, bucket)]
             .lock()
             .unwrap();
+        #[cfg(feature = "verif_hooks")]
+        if matches!(slot, StringsSlot::Strings(_)) {
+            crate::verif_hooks::evlog::ev(
+                24,
+                input as u64,
+                (bucket as u64) << 1 | u64::from(matches!(*lock, StringsSlot::WaitingForStrings(_))),
+            );
+        }
         replace(&mut lock, slot)
     }
 }
@@ -871,16 +879,8 @@ fn process_input_section_group<'data, 'offsets, 'scope>(
     for (i, bucket_out) in buckets.iter_mut().enumerate() {
         #[cfg(feature = "verif_hooks")]
         crate::verif_hooks::perturb(13);
-        #[cfg(feature = "verif_hooks")]
-        let verif_held = crate::verif_hooks::evlog::hold();
         let prev_slot =
             resources.swap_strings_slot(group_in.index, i, StringsSlot::Strings(take(bucket_out)));
-        #[cfg(feature = "verif_hooks")]
-        verif_held.push_and_release(
-            24,
-            group_in.index as u64,
-            (i as u64) << 1 | u64::from(matches!(prev_slot, StringsSlot::WaitingForStrings(_))),
-        );
         if let StringsSlot::WaitingForStrings(bucket) = prev_slot {
             scope.spawn(|scope| {
                 if let Err(error) = work_with_bucket(resources, bucket, scope) {
